@@ -604,6 +604,17 @@ int main(int argc, char **argv) {
     _exit(fd >= 0 ? 0 : 99);
   } else if (!strcmp(c, "hello")) {
     write(1, "hello\n", 6); _exit(0);
+  } else if (!strcmp(c, "load")) {
+    // load MEMBYTES CPUMS SLEEPMS: builds a resource profile (touches MEMBYTES of memory and keeps them, burns CPUMS ms of CPU),
+    // says so with one byte on stdout, then lives on for SLEEPMS ms and exits 0
+    long mem = atol(argv[2]), cpu = atol(argv[3]), ms = atol(argv[4]);
+    if (mem > 0) { volatile char *m = malloc(mem); if (!m) _exit(97); for (long i = 0; i < mem; i += 4096) m[i] = 1; m[mem - 1] = 1; }
+    if (cpu > 0) { struct timespec t0, t1; clock_gettime(CLOCK_PROCESS_CPUTIME_ID, &t0); volatile unsigned long x = 0;
+      for (;;) { for (int i = 0; i < 100000; i++) x += i; clock_gettime(CLOCK_PROCESS_CPUTIME_ID, &t1);
+        if ((t1.tv_sec - t0.tv_sec) * 1000 + (t1.tv_nsec - t0.tv_nsec) / 1000000 >= cpu) break; } }
+    if (write(1, "R", 1) != 1) _exit(98);
+    struct timespec ts = {ms / 1000, (ms % 1000) * 1000000L}; nanosleep(&ts, NULL);
+    _exit(0);
   }
   return 3;
 }
